@@ -21,6 +21,17 @@ impl VerifPerf for OsuPerformance<'_> {
         a_d == b_d && a_acc == b_acc && a_combo == b_combo && a_large_tick_hits == b_large_tick_hits && a_small_tick_hits == b_small_tick_hits && a_slider_end_hits == b_slider_end_hits && a_n300 == b_n300 && a_n100 == b_n100 && a_n50 == b_n50 && a_misses == b_misses && a_hitresult_priority == b_hitresult_priority
     }
 
+    fn v_map(&self) -> Option<&crate::Beatmap> {
+        match self.map_or_attrs {
+            MapOrAttrs::Map(ref m) => Some(m.as_ref()),
+            MapOrAttrs::Attrs(_) => None,
+        }
+    }
+
+    fn v_map_is_borrowed(&self) -> bool {
+        matches!(self.map_or_attrs, MapOrAttrs::Map(std::borrow::Cow::Borrowed(_)))
+    }
+
     fn v_attrs(&self) -> Option<&Self::Attrs> {
         match self.map_or_attrs {
             MapOrAttrs::Attrs(ref a) => Some(a),
